@@ -1147,7 +1147,7 @@ fn status_strategy() -> impl Strategy<Value = StatusSel> {
 fn case_strategy() -> impl Strategy<Value = Case> {
   let selection = (
     0u8..4,
-    prop_oneof![6 => Just(M::AG), 3 => Just(M::AA), 2 => Just(M::BG), 1 => Just(M::AN), 1 => Just(M::BA), 1 => Just(M::BF), 1 => Just(M::AForeignF), 1 => Just(M::AForeignG)],
+    prop_oneof![6 => Just(M::AG), 3 => Just(M::AA), 2 => Just(M::BG), 1 => Just(M::AN), 1 => Just(M::BA), 1 => Just(M::BF), 1 => Just(M::AForeignF), 1 => Just(M::AForeignG), 1 => Just(M::ACI), 1 => Just(M::ACD)],
     prop_oneof![
       14 => Just(Entry::ValidateHost),
       1 => Just(Entry::ValidateOther),
